@@ -2,6 +2,10 @@ package main
 
 import (
 	"fmt"
+	"math/rand"
+
+	"github.com/bluenviron/gomavlib/v3/pkg/dialect"
+	"github.com/bluenviron/gomavlib/v3/pkg/message"
 
 	"github.com/bluenviron/gomavlib/v3/pkg/x25"
 
@@ -61,13 +65,20 @@ func genC02(o *hx.Out, tier string) {
 		o.Add("x25-spec", x25sum(p), "crcspec", hx.Hex(p))
 	}
 
-	// (b) the gate
+	// (b) the gate, on the shipped common dialect and on a dialect of user-defined messages
+	// (one-element arrays, one-character strings, extensions, enums, the 255-byte message)
 	d := shipped("common")
-	drw := defineDialect(o, "common", d)
 	nmsg := 24
 	if tier == "thorough" {
 		nmsg = len(d.Messages)
 	}
+	c02Gate(o, r, "common", d, nmsg, 1)
+	ud := &dialect.Dialect{Version: 3, Messages: append(append([]message.Message(nil), userStructs[:11]...), userOne...)}
+	c02Gate(o, r, "user02", ud, len(ud.Messages), 6)
+}
+
+func c02Gate(o *hx.Out, r *rand.Rand, dname string, d *dialect.Dialect, nmsg int, thin int) {
+	drw := defineDialect(o, dname, d)
 	perm := r.Perm(len(d.Messages))
 	for i := 0; i < nmsg; i++ {
 		proto := d.Messages[perm[i]]
@@ -83,26 +94,26 @@ func genC02(o *hx.Out, tier string) {
 			}
 			add := func(class string, b []byte) {
 				cs := one(b)
-				o.Add(class, hx.ReadAll(cs, drw, nil, nil), "fread", "common", "-", hx.ChunksText(cs))
+				o.Add(class, hx.ReadAll(cs, drw, nil, nil), "fread", dname, "-", hx.ChunksText(cs))
 			}
 			add("gate-valid", bs)
 			// the gate must not depend on how the transport splits the frame: every two-piece split
 			// of the valid frame, and a random segmentation of every fourth damaged variant
 			for cut := 1; cut < len(bs); cut++ {
 				cs := []hx.Chunk{{Data: bs[:cut]}, {Data: bs[cut:]}}
-				o.Add("gate-valid-split", hx.ReadAll(cs, drw, nil, nil), "fread", "common", "-", hx.ChunksText(cs))
+				o.Add("gate-valid-split", hx.ReadAll(cs, drw, nil, nil), "fread", dname, "-", hx.ChunksText(cs))
 			}
 			nadd := 0
 			addv := func(class string, b []byte) {
 				nadd++
 				if nadd%4 == 0 {
 					cs := splitRandom(r, b)
-					o.Add(class+"-split", hx.ReadAll(cs, drw, nil, nil), "fread", "common", "-", hx.ChunksText(cs))
+					o.Add(class+"-split", hx.ReadAll(cs, drw, nil, nil), "fread", dname, "-", hx.ChunksText(cs))
 					return
 				}
 				add(class, b)
 			}
-			for bit := 0; bit < len(bs)*8; bit++ {
+			for bit := 0; bit < len(bs)*8; bit += 1 + r.Intn(thin) {
 				c := append([]byte(nil), bs...)
 				c[bit/8] ^= 1 << uint(bit%8)
 				addv("gate-bitflip", c)
